@@ -338,6 +338,12 @@ def run(prog, rep):
                 named = key[0] == "agg" and re.search(r"\.name\)?\}?$|\.name\)", kc) is not None and ".name" in kc and len(key[5]) >= 2
                 rep.check(named and inloop, "E2.x-e", "%s :: previous-writer key" % f.id, sp_str(t["sp"]), "keyed by the element and the attribute's name, recorded for each attribute of the statement",
                           "the previous writer of an attribute is recorded under `%s`%s: a conflict names the last statement that touched the element, not the one that set this attribute" % (kc[:120], "" if inloop else " once per statement"))
+                # the record is unconditional: it dominates every Attributes::add of the function (must-pass-through)
+                adds = [b2 for b2, t2 in body.calls() if is_callee(t2, r"graph::Attributes::add$")]
+                undominated = [b2 for b2 in adds if not body.dominates(b, b2)]
+                rep.check(bool(adds) and not undominated, "E2.x-e", "%s :: previous-writer record dominates add" % f.id, sp_str(t["sp"]),
+                          "every Attributes::add of the deferred statement is preceded by the record of its writer",
+                          "an attribute can be added without recording which statement set it (%d of %d add calls not dominated by the record): a later conflict names one statement only" % (len(undominated), len(adds)))
     rep.floor("E2.x-e", nk, 2, "previous-writer records")
     pc = [f for f in prog.shape_fns() if f.trait == "std::convert::From" and f.self_path == "tsg::execution::error::Context" and f.name == "from" and "(tsg::execution::error::StatementContext, tsg::execution::error::StatementContext)" in (f.trait_ref or f.id)]
     if len(pc) == 1:
